@@ -152,4 +152,16 @@ theorem C10_attribution_rule (e : Edge) (p : Int) :
   · intro h hs hd; rw [h, hs, hd]; rfl
   · intro h hs hd; rw [h, hs, hd]; rfl
 
+def exRows : List Row := [
+  { idx := 0, ts := 0, dur := 20, pid := 1, tid := 1, stream := -1, corr := -1, link := -1, name := "aten::add", cat := "cpu_op" },
+  { idx := 1, ts := 2, dur := 3, pid := 1, tid := 1, stream := -1, corr := 5, link := 2, name := "cudaLaunchKernel", cat := "cuda_runtime" },
+  { idx := 2, ts := 6, dur := 30, pid := 0, tid := 7, stream := 7, corr := 5, link := 1, name := "ncclKernel_AllReduce", cat := "kernel" }]
+def exG : G := { edges := [⟨⟨1, true⟩, ⟨2, true⟩, 4, .launch⟩, ⟨⟨2, true⟩, ⟨2, false⟩, 30, .op⟩],
+                 attr := [(⟨2, true⟩, ⟨2, false⟩, 2)] }
+/-- Non-vacuity: a launch-delay edge and a communication kernel's span give a breakdown (the hypothesis
+`breakdown … = some out` is met) with the two bound-by classes and durations adding up to 34. -/
+example : (breakdown exRows exG exG.edges).map (fun out => (out.map (·.boundBy), totalDur out)) =
+    some (["gpu_kernel_launch_overhead", "gpu_communication_bound"], 34) := by
+  decide
+
 end Hta.C10
